@@ -78,10 +78,12 @@ def code_constants(prog, funcs):
 
 
 # ---------------------------------------------------------------------------
-def check_constants(ctx, chk, prop='C03'):
+def check_constants(ctx, chk, prop='C03', names=None):
     prog = ctx.prog
     n = 0
     for name, ref in sorted(REF_CONST.items()):
+        if names is not None and name not in names:
+            continue
         c = prog.consts.get('control::' + name)
         if c is None:
             continue
@@ -91,6 +93,8 @@ def check_constants(ctx, chk, prop='C03'):
                      detail='evaluated %r, reference %r' % (v, ref), span=c['span'],
                      what='control constant %s is %r, the standard code point is %r' % (name, v, ref))
     for name, ref in sorted(REF_SETS.items()):
+        if names is not None and name not in names:
+            continue
         c = prog.consts.get('control::' + name)
         if c is None:
             continue
@@ -99,7 +103,9 @@ def check_constants(ctx, chk, prop='C03'):
         ok = isinstance(v, list) and set(v) == ref
         chk.instance('R-CONST', 'control::' + name, 'set', ok, detail='evaluated %r, reference %r' % (v, sorted(ref)), span=c['span'],
                      what='character class %s differs from the documented set' % name)
-    chk.floor('control constants evaluated', n, 25)
+    chk.floor('control constants evaluated', n, 25 if names is None else min(4, len(names)))
+    if names is not None:
+        return None
     # SPECIAL (lazy_static)
     eng = ctx.new_engine()
     sv = static_value(eng, 'control::SPECIAL')
@@ -126,7 +132,7 @@ def expect_args(pattern, n, private):
     return tuple(out)
 
 
-def dispatch_tables(ctx, chk, prop='C03', only=None):
+def dispatch_tables(ctx, chk, prop='C03', only=None, quiet=False):
     """R-DISPATCH: the three decision tables, entry by entry; returns the extracted tables
     (used to expand dispatch events of the automaton)"""
     prog = ctx.prog
@@ -144,6 +150,8 @@ def dispatch_tables(ctx, chk, prop='C03', only=None):
                 ref = CSI_REF.get(c)
                 exp = {((ref[0], expect_args(ref[1], n, private)),)} if ref else {()}
                 ncsi += 1
+                if quiet:
+                    continue
                 chk.instance('R-DISPATCH', 'csi_dispatch', 'final %r n=%d private=%s' % (c, n, private), out == exp,
                              nontrivial=(ref is not None), detail='extracted %s, reference %s' % (sorted(out), sorted(exp)),
                              what='CSI final %r with %d parameter(s): dispatches %s, documented %s' % (c, n, _fmt(out), _fmt(exp)))
@@ -154,7 +162,7 @@ def dispatch_tables(ctx, chk, prop='C03', only=None):
         ref = ESC_REF.get(c)
         exp = {((ref, ()),)} if ref else {()}
         nesc += 1
-        if only is None:
+        if only is None and not quiet:
             chk.instance('R-DISPATCH', 'escape_dispatch', 'final %r' % c, out == exp, nontrivial=(ref is not None),
                          detail='extracted %s, reference %s' % (sorted(out), sorted(exp)),
                          what='ESC %r: dispatches %s, documented %s' % (c, _fmt(out), _fmt(exp)))
@@ -162,11 +170,12 @@ def dispatch_tables(ctx, chk, prop='C03', only=None):
         tables['basic'][c] = out
         ref = BASIC_REF.get(c)
         exp = {((ref, ()),)} if ref else {()}
-        if only is None:
+        if only is None and not quiet:
             chk.instance('R-DISPATCH', 'basic_dispatch', 'control %r' % c, out == exp, nontrivial=(ref is not None),
                          detail='extracted %s, reference %s' % (sorted(out), sorted(exp)),
                          what='control %r: dispatches %s, documented %s' % (c, _fmt(out), _fmt(exp)))
-    chk.floor('csi dispatch entries', ncsi, 100 if only is None else 8)
+    if not quiet:
+        chk.floor('csi dispatch entries', ncsi, 100 if only is None else 8)
     return tables
 
 
@@ -354,6 +363,8 @@ def run_fsm(ctx, chk, tables, prop='C03', focus=None):
     chk.floor('automaton transitions compared', ntrans, 300 if focus is None else 20)
     chk.cov['reference_states_reached'] = sorted({_sname(r) for r, s in seen})
     chk.cov['state_site_pairs'] = len(seen)
+    F.pairs = seen
+    F.ground = grounds[0]
     return F
 
 
